@@ -137,7 +137,7 @@ class C09(Prop):
                 if rng.random() < 0.5:
                     seq = [bool(v0), bool(v0), v0, bool(v0)]
                 yield {"kind": "runs", "program": [{"name": "g0", "nodes": nodes, "bound": []}],
-                       "runs": [{"values": [["x", v]], "runner": rng.choice(["sync", "async", "async"])} for v in seq[: rng.randint(3, len(seq))]],
+                       "runs": [{"values": [["x", v]], "runner": ("sync" if j % 2 == 0 else "async")} for j, v in enumerate(seq[: rng.randint(3, len(seq))])],
                        "backend": rng.choice(["mem", "mem", "lru4", "disk"])}
                 continue
             if 0.30 <= r < 0.34:
